@@ -107,6 +107,9 @@ func (w *simWorld) build(objs []client.Object) {
 			return fmt.Errorf("injected: rejected")
 		}
 		err := apply()
+		if kind == "create" || kind == "delete" {
+			w.wl.applied(obj, err)
+		}
 		if f == "lost" {
 			return fmt.Errorf("injected: applied, answer lost")
 		}
